@@ -13,7 +13,7 @@ CONFIG = {
     "level_note": "partial: goroutine scheduling is abstracted to interleavings of the model's atomic steps; the block authenticator "
                   "is an oracle (round + digest claim as in agreement/certificate.go, genuine-bundle mark) and the ledger is a monitor "
                   "with the real ledger's accept/reject rule and error values",
-    "rule": "a case = one run of the REAL Service.pipelinedFetch (fetchAndWrite goroutines, innerFetch, universalBlockFetcher, "
+    "rule": "7 of 8 cases: one run of the REAL Service.pipelinedFetch (fetchAndWrite goroutines, innerFetch, universalBlockFetcher, "
             "processBlockBytes, class-based peer selectors) against 1-3 in-process adversarial UnicastPeers that answer the k-th request "
             "for a round with the k-th entry of a seeded script: transport error, no-block, undecodable bytes, genuine pair of another "
             "(past / future / random) round, right block with the certificate of another round, certificate committing to another digest, "
@@ -27,7 +27,10 @@ CONFIG = {
             "ContentsMatchHeader + authenticator oracle recomputed on the pair it was handed); spec_ok is evaluated on that log. "
             "The whole mutex-ordered event log (peer answers, Authenticate calls, ledger calls) is replayed through the model's step "
             "function in its real order (trace validation) and, when the outcome is schedule independent, the final ledger is compared "
-            "with the model's prediction from the script. Non-trivial = catchup wrote at least one block and at least one served "
+            "with the model's prediction from the script. 1 of 8 cases: one Service.syncCert/fetchRound call (agreement has the "
+            "certificate of the next round, not the block) against the same adversarial peers under all four settings of the two "
+            "switches; spec_ok there = the single EnsureBlock call carries the block the certificate commits to, payset matching. "
+            "A watchdog cancels a run that does not return (deadlocked pipeline) and the case is reported (end 9). Non-trivial = catchup wrote at least one block and at least one served "
             "answer was bad; distinct = distinct case lines.",
     "exhaustive": {"quick": False, "thorough": False},
     "explanation": "theorems: every configuration, every number of workers, every peer behaviour (arbitrary (block, cert) pairs or errors per "
@@ -45,8 +48,9 @@ CONFIG = {
     "trusted_base": [
         "modelled: catchup/service.go fetchAndWrite + pipelinedFetch + innerFetch, universalFetcher.go processBlockBytes as a pc machine "
         "per worker (coq/model/Catchup.v); time-dependent parallelism limit over-approximated by its maximum; peer selection = adversary",
-        "not modelled: fetchRound/syncCert (EnsureBlock path, one round, certificate given by agreement), periodicSync, "
-        "unsupportedRoundMonitor (only its effect: cancellation), peer ranking, telemetry",
+        "modelled: fetchRound/syncCert as a second small pc machine (fr_step); the fork alarm inside it only logs and is dropped",
+        "not modelled: periodicSync, unsupportedRoundMonitor (only its effect: cancellation), roundIsNotSupported (spawning is "
+        "optional in the model), peer ranking, telemetry, data.Ledger.EnsureBlock's own retry loop",
         "harness authenticator oracle and monitoring ledger (harness/go/catchup/zz_verif_c30_test.go); the real agreement bundle "
         "verification is not exercised here",
     ],
